@@ -94,7 +94,7 @@ def cases(tier, seed):
         for c in pipes + hand + rg:
             for s in sems_for(c):
                 out.append({"circuit": c, "semiring": s})
-        for i, c in enumerate(families.random_members(seed + 1000, 160)):
+        for i, c in enumerate(families.random_members(1001, 160)):
             out.append({"circuit": c, "semiring": sems[i % 3]})
     return out
 
